@@ -127,6 +127,10 @@ type preInput struct {
 	T          int    `json:"t"`
 	Known      []int  `json:"known"`
 	Concurrent bool   `json:"concurrent"`
+	// a second nsqlookupd B: "" none | "healthy" | "down" (stopped after the handshake) |
+	// "500" | "garbage" (its HTTP /channels answers badly); KnownB = what B knows
+	BMode  string `json:"b_mode,omitempty"`
+	KnownB []int  `json:"known_b,omitempty"`
 }
 
 func genPrecreate(r *lib.Rand, k int) preInput {
@@ -147,68 +151,131 @@ func genPrecreate(r *lib.Rand, k int) preInput {
 			}
 		}
 	}
+	// two thirds of the cases have a second nsqlookupd, mostly a failing one
+	modes := []string{"", "down", "500", "garbage", "healthy", "down"}
+	in.BMode = modes[k%len(modes)]
+	if in.BMode != "" {
+		has := false
+		for _, c := range in.Known {
+			if c%2 == 0 {
+				has = true
+			}
+		}
+		if !has {
+			in.Known = append(in.Known, 2)
+		}
+		for i := 0; i < 1+r.Intn(3); i++ {
+			in.KnownB = append(in.KnownB, 10+r.Intn(8))
+		}
+	}
 	return in
 }
 
+func rewriteHTTPPort(addr string) func([]byte) []byte {
+	_, gport, _ := net.SplitHostPort(addr)
+	return func(body []byte) []byte {
+		var m map[string]interface{}
+		if json.Unmarshal(body, &m) != nil {
+			return body
+		}
+		var p int
+		fmt.Sscanf(gport, "%d", &p)
+		m["http_port"] = p
+		nb, _ := json.Marshal(m)
+		return nb
+	}
+}
+
 func emitPrecreate(o *lib.Out, name string, in preInput, scratch string) {
-	ld, err := startLookupd()
-	if err != nil {
-		lib.Fatalf("lookupd: %v", err)
+	nl := 1
+	if in.BMode != "" {
+		nl = 2
 	}
-	defer ld.stop()
-	px, err := newProxy()
-	if err != nil {
-		lib.Fatalf("proxy: %v", err)
-	}
-	defer px.close()
-	px.setUpstream(ld.tcp)
-	var gate *httpGate
-	if in.Concurrent {
-		gate, err = newHTTPGate(ld.http)
+	lds := make([]*lookupdInst, nl)
+	pxs := make([]*proxy, nl)
+	gates := make([]*httpGate, nl)
+	var addrs []string
+	for a := 0; a < nl; a++ {
+		ld, err := startLookupd()
 		if err != nil {
-			lib.Fatalf("gate: %v", err)
+			lib.Fatalf("lookupd: %v", err)
 		}
-		defer gate.close()
-		_, gport, _ := net.SplitHostPort(gate.addr)
-		px.mu.Lock()
-		px.identRewrite = func(body []byte) []byte {
-			var m map[string]interface{}
-			if json.Unmarshal(body, &m) != nil {
-				return body
+		lds[a] = ld
+		px, err := newProxy()
+		if err != nil {
+			lib.Fatalf("proxy: %v", err)
+		}
+		defer px.close()
+		px.setUpstream(ld.tcp)
+		pxs[a] = px
+		addrs = append(addrs, px.addr)
+		needGate := (a == 0 && in.Concurrent) || (a == 1 && (in.BMode == "500" || in.BMode == "garbage"))
+		if needGate {
+			g, err := newHTTPGate(ld.http)
+			if err != nil {
+				lib.Fatalf("gate: %v", err)
 			}
-			var p int
-			fmt.Sscanf(gport, "%d", &p)
-			m["http_port"] = p
-			nb, _ := json.Marshal(m)
-			return nb
+			defer g.close()
+			gates[a] = g
+			px.mu.Lock()
+			px.identRewrite = rewriteHTTPPort(g.addr)
+			px.mu.Unlock()
 		}
-		px.mu.Unlock()
 	}
-	n, err := startNsqd(scratch, []string{px.addr}, heartbeat)
+	defer func() {
+		for _, l := range lds {
+			if l != nil {
+				l.stop()
+			}
+		}
+	}()
+	n, err := startNsqd(scratch, addrs, heartbeat)
 	if err != nil {
 		lib.Fatalf("nsqd: %v", err)
 	}
 	defer n.kill()
-	// wait until nsqd has read the IDENTIFY reply (it then knows the lookupd's HTTP address):
-	// the lookup loop is sequential, so a second reply frame (its first PING) passing the
-	// proxy means connectCallback has returned
+	// wait until nsqd has read every IDENTIFY reply (it then knows the lookupds' HTTP addresses):
+	// the lookup loop is sequential, so a second reply frame (its first PING) passing a proxy
+	// means connectCallback has returned on that peer
 	dl := time.Now().Add(8 * time.Second)
 	for time.Now().Before(dl) {
-		px.mu.Lock()
-		nf := px.nFrames
-		px.mu.Unlock()
-		if nf >= 2 {
+		ok := true
+		for _, px := range pxs {
+			px.mu.Lock()
+			if px.nFrames < 2 {
+				ok = false
+			}
+			px.mu.Unlock()
+		}
+		if ok {
 			break
 		}
 		time.Sleep(10 * time.Millisecond)
 	}
 	for _, c := range in.Known {
-		post("http://"+ld.http+"/channel/create?topic="+tname(in.T)+"&channel="+urlq(cname(c)), nil)
+		post("http://"+lds[0].http+"/channel/create?topic="+tname(in.T)+"&channel="+urlq(cname(c)), nil)
+	}
+	if nl == 2 {
+		for _, c := range in.KnownB {
+			post("http://"+lds[1].http+"/channel/create?topic="+tname(in.T)+"&channel="+urlq(cname(c)), nil)
+		}
+		switch in.BMode {
+		case "down":
+			pxs[1].setUpstream("")
+			lds[1].stop()
+			lds[1] = nil
+			pxs[1].dropConns()
+		case "500", "garbage":
+			gates[1].mu.Lock()
+			gates[1].mode = in.BMode
+			gates[1].mu.Unlock()
+		}
 	}
 	pubBok := true
 	var pubBms int64
 	first := 1
 	if in.Concurrent {
+		gate := gates[0]
 		first = 2
 		gate.holdRequests()
 		var wg sync.WaitGroup
@@ -249,25 +316,28 @@ func emitPrecreate(o *lib.Out, name string, in preInput, scratch string) {
 	for _, c := range created {
 		got, _ := consume(n.tcp, tname(in.T), cname(c), want, 3*time.Second)
 		obsQ[cname(c)] = got
-		qs := make([]string, len(got))
-		for i, g := range got {
-			qs[i] = g
+		queues = append(queues, fmt.Sprintf("(%d, %s)", c, lib.CoqList(got)))
+	}
+	ints := func(xs []int) string {
+		parts := make([]string, len(xs))
+		for i, c := range xs {
+			parts[i] = fmt.Sprint(c)
 		}
-		queues = append(queues, fmt.Sprintf("(%d, %s)", c, lib.CoqList(qs)))
+		return lib.CoqList(parts)
 	}
-	known := make([]string, len(in.Known))
-	for i, c := range in.Known {
-		known[i] = fmt.Sprint(c)
-	}
-	cr := make([]string, len(created))
-	for i, c := range created {
-		cr[i] = fmt.Sprint(c)
+	bmode := 0
+	switch in.BMode {
+	case "healthy":
+		bmode = 1
+	case "down", "500", "garbage":
+		bmode = 2
 	}
 	alive := n.alive()
 	o.Emit(lib.Case{Name: name,
-		Coq: fmt.Sprintf("(J16.Precreate %d %s %s %s %s %d %s)", in.T, lib.CoqList(known), lib.CoqBool(in.Concurrent),
-			lib.CoqList(cr), lib.CoqList(queues), first, lib.CoqBool(pubBok && alive)),
-		Input: in, Tags: []string{"kind=precreate", fmt.Sprintf("concurrent-publisher=%v", in.Concurrent), fmt.Sprintf("known=%d", len(in.Known))},
+		Coq: fmt.Sprintf("(J16.Precreate %d %s %d %s %s %s %s %d %s)", in.T, ints(in.Known), bmode, ints(in.KnownB), lib.CoqBool(in.Concurrent),
+			ints(created), lib.CoqList(queues), first, lib.CoqBool(pubBok && alive)),
+		Input: in, Tags: []string{"kind=precreate", fmt.Sprintf("concurrent-publisher=%v", in.Concurrent), fmt.Sprintf("known=%d", len(in.Known)),
+			"second-lookupd=" + map[bool]string{true: "none", false: in.BMode}[in.BMode == ""]},
 		Nontrivial: true, Obs: map[string]interface{}{"created": created, "queues": obsQ, "second_publisher_ms": pubBms}})
 }
 
@@ -421,6 +491,90 @@ func emitK6b(o *lib.Out, scratch string) {
 		Tags:  []string{"kind=k6b", fmt.Sprintf("stale=%v", !eqStrings(regs, live))}, Nontrivial: true,
 		Obs: map[string]interface{}{"lookupd_registrations": regs, "nsqd_live": live, "registrations_while_parked": during, "ticks_waited": ticks,
 			"schedule": "GetTopic(t0); GetTopic(t1); [arm park at delete-topic:before-remove]; DeleteExistingTopic(t0) parks after topic.Delete() (UNREGISTER t0 served, t0 still in n.topicMap); the lookupd connection is cut; heartbeat 1: PING fails, peer closed; heartbeat 2: reconnect, connectCallback must skip t0 (exiting, still mapped) and register t1; release: t0 leaves the map"}})
+}
+
+// ---------------------------------------------------------------- K6c on an in-process nsqd
+// A reconnect inside the deletion of a topic's ONLY channel: DeleteExistingChannel has run
+// channel.Delete() (exit flag set, UNREGISTER served) but has not yet removed the channel from
+// t.channelMap.  connectCallback must skip the channel AND still register the bare topic.
+func emitK6c(o *lib.Out, scratch string) {
+	ld, err := startLookupd()
+	if err != nil {
+		lib.Fatalf("lookupd: %v", err)
+	}
+	defer ld.stop()
+	px, err := newProxy()
+	if err != nil {
+		lib.Fatalf("proxy: %v", err)
+	}
+	defer px.close()
+	px.setUpstream(ld.tcp)
+	opts := nsqdlib.NewOpts(scratch)
+	opts.NSQLookupdTCPAddresses = []string{px.addr}
+	n, err := nsqdlib.Start(opts)
+	if err != nil {
+		lib.Fatalf("nsqd: %v", err)
+	}
+	defer n.Exit()
+	port := n.RealTCPAddr().(*net.TCPAddr).Port
+	waitRegs := func(want []string, d time.Duration) []string {
+		dl := time.Now().Add(d)
+		var regs []string
+		for {
+			regs, _ = lookupdRegs(ld.http, port)
+			if eqStrings(regs, want) || time.Now().After(dl) {
+				return regs
+			}
+			time.Sleep(10 * time.Millisecond)
+		}
+	}
+	topic := n.GetTopic("t0")
+	topic.GetChannel("c0")
+	waitRegs([]string{"C:t0:c0", "T:t0"}, 5*time.Second)
+	reached, release := nsqd.VerifArmPark("delete-channel:before-remove", 1)
+	delDone := make(chan struct{})
+	go func() { topic.DeleteExistingChannel("c0"); close(delDone) }()
+	select {
+	case <-reached:
+	case <-time.After(5 * time.Second):
+		lib.Fatalf("k6c: DeleteExistingChannel never reached the point")
+	}
+	waitRegs([]string{"T:t0"}, 5*time.Second) // the UNREGISTER of c0 has been served
+	accepted := func() int { px.mu.Lock(); defer px.mu.Unlock(); return px.nAccepted }
+	frames := func() int { px.mu.Lock(); defer px.mu.Unlock(); return px.nFrames }
+	a0 := accepted()
+	px.dropConns()
+	dl := time.Now().Add(5 * time.Second)
+	for accepted() == a0 && time.Now().Before(dl) {
+		time.Sleep(5 * time.Millisecond)
+	}
+	// the reconnect's connectCallback has returned once a later reply (PING) passes the proxy
+	f0 := frames()
+	for frames() < f0+3 && time.Now().Before(dl) {
+		time.Sleep(5 * time.Millisecond)
+	}
+	during, _ := lookupdRegs(ld.http, port)
+	release()
+	<-delDone
+	t0 := time.Now()
+	regs := waitRegs([]string{"T:t0"}, 15*heartbeat)
+	ticks := float64(time.Since(t0)) / float64(heartbeat)
+	live := []string{}
+	if tp, err := n.GetExistingTopic("t0"); err == nil {
+		live = append(live, "T:t0")
+		if _, err := tp.GetExistingChannel("c0"); err == nil {
+			live = append([]string{"C:t0:c0"}, live...)
+		}
+	}
+	ops := []string{"Reconfigure [0%nat]", "Tick", "Tick", "TopicCreate 0", "TopicAdvance 0", "TopicAdvance 0", "Deliver 0%nat",
+		"ChanCreate 0 0", "Deliver 0%nat", "ChanDeleteBegin 0 0", "Deliver 0%nat", "FReply 0%nat [RClose]", "Tick", "Tick", "ChanDeleteEnd 0 0"}
+	ops = append(ops, repeatOp("Tick", 10)...)
+	ph := fmt.Sprintf("(J16.mkPhase %s [true] [true] [%s] %s true true)", lib.CoqList(ops), coqKeys(regs), coqKeys(live))
+	o.Emit(lib.Case{Name: "k6c-reconnect-inside-only-channel-deletion", Coq: "(J16.Scenario [" + ph + "])",
+		Input: map[string]interface{}{"kind": "k6c"},
+		Tags:  []string{"kind=k6c", fmt.Sprintf("stale=%v", !eqStrings(regs, live))}, Nontrivial: true,
+		Obs: map[string]interface{}{"lookupd_registrations": regs, "nsqd_live": live, "registrations_while_parked": during, "ticks_waited": ticks,
+			"schedule": "GetTopic(t0).GetChannel(c0); [arm park at delete-channel:before-remove]; DeleteExistingChannel(c0) parks after channel.Delete() (UNREGISTER t0 c0 served, c0 exiting but still in channelMap); the lookupd connection is cut; heartbeat 1: PING fails, peer closed; heartbeat 2: reconnect, connectCallback must skip c0 and register the bare topic t0; release: c0 leaves the map; the lookupd must list t0 (and not c0)"}})
 }
 
 var _ = bufio.NewReader
